@@ -22,7 +22,7 @@ PAGE = 0x1000
 MAX_FILE = 24000          # bytes; larger files are skipped and counted
 CAP = 1 << 24
 
-MC_CFG = """CONSTANTS MaxSecs = %d MaxSyms = %d MaxRels = %d MaxSegs = %d Sample = %d PosMod = %d
+MC_CFG = """CONSTANTS MaxSecs = %d MaxSyms = %d MaxRels = %d MaxSegs = %d Sample = %d PosMod = %d Lite = %s
 INIT Init
 NEXT Next
 CHECK_DEADLOCK FALSE
@@ -341,14 +341,14 @@ def reference(t, bits):
     return {"present": True, "hdr": hdr, "secs": secs, "syms": syms, "relas": relas, "segs": segs}
 
 
-def readelf_diag_all(paths):
+def readelf_diag_all(paths, both=True):
     """diagnostics of GNU readelf and llvm-readelf per file (one shell loop): {path: [short strings]},
     an empty list = accepted silently"""
     res = {p: [] for p in paths}
     if not paths:
         return res
     script = ('for f in "$@"; do echo "##FILE $f" >&2; readelf -a -W "$f" >/dev/null || echo "readelf: exit status $?" >&2; '
-              'llvm-readelf-14 -a "$f" >/dev/null || echo "llvm-readelf: exit status $?" >&2; done')
+              + ('llvm-readelf-14 -a "$f" >/dev/null || echo "llvm-readelf: exit status $?" >&2; ' if both else '') + 'done')
     try:
         p = subprocess.run(["sh", "-c", script, "sh"] + paths, capture_output=True, text=True, timeout=300)
     except Exception:
@@ -390,7 +390,7 @@ class Engine:
         ctx.assume("relocatable files of machines other than x86_64 with relocation entries are refused by ppci "
                    "(NotImplementedError 'ELF format relocations'): outside the property, skipped and counted")
         if ctx.only is None:
-            cfg = MC_CFG % ((2, 2, 1, 1, 97, 4) if thorough else (1, 1, 1, 1, 23, 8))
+            cfg = MC_CFG % ((2, 2, 1, 1, 97, 4, "FALSE") if thorough else (1, 1, 1, 1, 11, 8, "TRUE"))
             res = ctx.tlc("Elf_MC", cfg, label="reader laws", workers=8, coverage=False)
             acts = {}
             for m in re.finditer(r'<<"ACT", "(\w+)">>', res.raw):
@@ -432,14 +432,14 @@ class Engine:
             if (not out["ok"] and out["exc"] == "NotImplementedError" and kind == "rel" and arch != "x86_64"
                     and proj["relocations"]):
                 unsupported += 1          # still judged by TLC (Unsupported(r)), counted here for the evidence
-            if out["ok"] and (thorough or len(recs) % 4 == 0):
+            if out["ok"] and (thorough or len(recs) % 6 == 0):
                 path = os.path.join(refdir, "f%d.elf" % len(recs))
                 with open(path, "wb") as f:
                     f.write(bytes(out["file"]))
                 tooled.append((path, rec))
             recs.append(rec)
         texts = reference_all([p for p, _ in tooled])
-        diags = readelf_diag_all([p for p, _ in tooled])
+        diags = readelf_diag_all([p for p, _ in tooled], both=thorough)
         for path, rec in tooled:
             ref = reference(texts.get(path), BITS.get(rec["arch"], 32))
             if ref is not None:
